@@ -86,6 +86,34 @@ fn compare_graph(w: &World, g: &Graph) -> Vec<String> {
     d
 }
 
+pub const ENUM_KINDS: [(&str, u64); 5] = [("short_read", 1), ("eintr_read", 0), ("eio_read", 0), ("eio_read", 1), ("short_read", 3)];
+pub const ENUM_GROUP: u64 = 160; // 32 read positions x 5 fault kinds per world
+
+/// complete enumeration for small worlds: seeds of one group share a world; the position inside the
+/// group selects (index of the faulted read, fault kind). A position beyond the last read of the
+/// load fires nothing, which is how the run learns that the world's positions are exhausted.
+fn gen_enumerate(seed: u64) -> Case {
+    let group = seed / ENUM_GROUP;
+    let pos = seed % ENUM_GROUP;
+    let mut r = Rng::new(group ^ fnv64("C15-enum"));
+    let gp = GraphParams { nv: (1, 7), extra_edge_factor: 2.5, ..Default::default() };
+    let mut w = World::gen_graph(&mut r, &gp);
+    w.gz_edges = r.chance(0.5);
+    w.gz_vertices = r.chance(0.5);
+    w.gz_tables = r.chance(0.5);
+    w.gz_misnamed = false;
+    w.explicit_counts = r.chance(0.4);
+    let (kind, arg) = ENUM_KINDS[(pos % ENUM_KINDS.len() as u64) as usize];
+    let idx = pos / ENUM_KINDS.len() as u64;
+    let mut simcfg = sim::SimCfg::default();
+    simcfg.sched = sim::SchedMode::Cooperative;
+    simcfg.faults = sim::F_SHORT_READ | sim::F_EINTR_READ | sim::F_EIO_READ;
+    simcfg.max_hard_faults = 1;
+    simcfg.max_steps = 400_000;
+    let recorded = sim::Recorded { sched: vec![], faults: vec![sim::FaultEv { at: "io".into(), idx, kind: kind.to_string(), arg }] };
+    Case { check: "C15".into(), seed, family: "enumerate".into(), world: w, batches: vec![], workers: 1, run_parallelism: None, simcfg, recorded: Some(recorded), params: json!({"group": group, "read_index": idx, "kind": kind, "arg": arg}) }
+}
+
 impl Check for C15 {
     fn id(&self) -> &'static str {
         "C15"
@@ -94,7 +122,7 @@ impl Check for C15 {
         "fault_enumeration"
     }
     fn families(&self, _tier: Tier) -> Vec<&'static str> {
-        vec!["legal", "legal", "hard", "nofault"]
+        vec!["legal", "enumerate", "hard", "legal", "enumerate", "nofault", "hard"]
     }
     fn default_runs(&self, tier: Tier) -> u64 {
         match tier {
@@ -103,6 +131,9 @@ impl Check for C15 {
         }
     }
     fn gen(&self, seed: u64, family: &str, tier: Tier) -> Case {
+        if family == "enumerate" {
+            return gen_enumerate(seed);
+        }
         let mut r = Rng::new(seed ^ fnv64("C15"));
         let gp = match tier {
             Tier::Quick => GraphParams { nv: (1, 30), ..Default::default() },
@@ -200,6 +231,13 @@ impl Check for C15 {
         reach.insert("degree_gt4".into(), (0..w.nv()).filter(|v| w.edges.iter().filter(|e| e.0 == *v).count() > 4).count() as u64);
         reach.insert("scanned_counts".into(), (!w.explicit_counts) as u64);
         reach.insert("misnamed_gz".into(), w.gz_misnamed as u64);
+        if case.family == "enumerate" {
+            let fired = !out.recorded.faults.is_empty();
+            reach.insert(if fired { "enumerated_positions_fired".into() } else { "enumerated_positions_beyond_last_read".into() }, 1);
+            if fired && case.params["read_index"].as_u64() == Some(ENUM_GROUP / ENUM_KINDS.len() as u64 - 1) {
+                reach.insert("enumeration_incomplete_worlds".into(), 1);
+            }
+        }
         ChildResult {
             violations: v,
             nontrivial: w.ne() > 0,
@@ -213,7 +251,7 @@ impl Check for C15 {
         }
     }
     fn rule(&self) -> String {
-        "each evaluation = one generated network (1-120 vertices, parallel edges, self loops, isolated vertices, hubs of degree >4, vertex file with shuffled / extra columns, explicit or scanned counts, every file plain or gzip, sometimes a gzip file without the .gz suffix) written to the simulated disk and loaded through DefaultGraphBuilder::build and SpeedTraversalEngine::new while the simulator injects faults at read() calls: family legal = short reads down to 1 byte + EINTR at a per-run rate up to 0.9 (graph must be exact), family hard = one EIO (one-shot or sticky) or one truncated gzip stream (load must fail or be exact; never hang, panic or differ silently), family nofault = none. The position of the faulted read is drawn per run (sampled, not enumerated completely). non-trivial = at least one edge; distinct = distinct (edge list, fault list)".into()
+        "each evaluation = one generated network (1-120 vertices, parallel edges, self loops, isolated vertices, hubs of degree >4, vertex file with shuffled / extra columns, explicit or scanned counts, every file plain or gzip, sometimes a gzip file without the .gz suffix) written to the simulated disk and loaded through DefaultGraphBuilder::build and SpeedTraversalEngine::new while the simulator injects faults at read() calls: family legal = short reads down to 1 byte + EINTR at a per-run rate up to 0.9 (graph must be exact), family hard = one EIO (one-shot or sticky) or one truncated gzip stream (load must fail or be exact; never hang, panic or differ silently), family nofault = none; family enumerate = worlds of 1-7 vertices shared by groups of 160 consecutive seeds, in which every read index 0..31 is faulted with each of five fault kinds (1-byte short read, 3-byte short read, EINTR, one-shot EIO, sticky EIO): a complete enumeration of single-fault positions for every world whose load needs at most 32 reads and whose group lies entirely inside the run's seed range (reach probes enumerated_positions_fired / enumerated_positions_beyond_last_read count both sides). In the other families the position of the faulted read is drawn per run. non-trivial = at least one edge; distinct = distinct (edge list, fault list)".into()
     }
     fn assumptions(&self) -> Vec<String> {
         vec![
